@@ -236,8 +236,28 @@ theorem validate_silent_save (o : Obj) (os : OStream) (r : SaveRes) (hdr : Bytes
     (h0 : ∀ (i : Nat) (s : SecBuf), o.secs[i]? = some s → s.Occ → s.index ≠ 0)
     (hnull0 : ∀ s ∈ o.secs, s.stype = BitVec.ofNat 32 SHT_NULL → s.size = 0)
     (hnw : layoutNW (preSave o) hdr = true) (hnd : (o.segs.map (·.index)).Nodup)
-    (hdom : layoutDomB false false (preSave o) hdr = true) : validate r.obj = [] :=
+    (hdom : layoutDomB false false (fun _ => true) (preSave o) hdr = true) : validate r.obj = [] :=
   validate_silent r.obj (C04.save_layoutOk o os r hdr hs hok hh hn h0 hnull0 hnw hnd hdom)
+
+/-- **Silence for the reloaded form**, relative to the loader: if the object obtained by loading the
+    saved bytes reports the same type/size/offset/address for every section and the same
+    type/file size/offset/virtual address for every segment as the object `save` left (C02:
+    the reader reports what the bytes say; C03/C05: the bytes say what the object holds), then
+    `validate` is silent on it too — `validate` reads nothing else (`validate_congr`; in particular
+    the section membership recomputed by the loader is irrelevant).  The composition with the loader
+    model itself is not done here; the correspondence check runs `save, validate, reload, validate`
+    on every generated program. -/
+theorem validate_silent_reloaded (o : Obj) (os : OStream) (r : SaveRes) (hdr : Bytes) (o' : Obj)
+    (hs : save o os = .ok r) (hok : r.ok = true) (hh : o.hdr = some hdr)
+    (hn : o.secs.length < 65536)
+    (h0 : ∀ (i : Nat) (s : SecBuf), o.secs[i]? = some s → s.Occ → s.index ≠ 0)
+    (hnull0 : ∀ s ∈ o.secs, s.stype = BitVec.ofNat 32 SHT_NULL → s.size = 0)
+    (hnw : layoutNW (preSave o) hdr = true) (hnd : (o.segs.map (·.index)).Nodup)
+    (hdom : layoutDomB false false (fun _ => true) (preSave o) hdr = true)
+    (hsecs : o'.secs.map vkey = r.obj.secs.map vkey) (hsegs : o'.segs.map vgkey = r.obj.segs.map vgkey) :
+    validate o' = [] := by
+  rw [validate_congr r.obj o' hsecs hsegs]
+  exact validate_silent_save o os r hdr hs hok hh hn h0 hnull0 hnw hnd hdom
 
 /-- non-vacuity: `C04.exObj` (two members of a PT_LOAD, one with an explicit address, and two
     loose sections) meets every hypothesis, and its `save` succeeds -/
